@@ -1,9 +1,9 @@
 (* C17 -- Router dispatches to a longest matching route, else the default.
-   Statements only; proofs in Router/Proofs.v.  Strings are byte lists; [L] is
+   Statements only; proofs in Router/Proofs.v and Router/Fine.v.  Strings are byte lists; [L] is
    the denotational language of the modelled class of regular expressions;
    Go's regexp package is trusted to implement it (see notes/C17.md). *)
 From Coq Require Import ZArith List Bool Permutation.
-From GoCoap Require Import Router.Model Router.Spec Router.Proofs.
+From GoCoap Require Import Router.Model Router.Spec Router.Proofs Router.Fine.
 Import ListNotations.
 Open Scope Z_scope.
 
@@ -190,6 +190,106 @@ Proof.
   split; [exact registered_lookup|]. split; [exact handle_effect|]. split; [exact remove_effect|exact failed_op_effect].
 Qed.
 Print Assumptions C17_registered_set.
+
+(* THE ADAPTER mux.ToHandler (what the udp/tcp/dtls servers call) hands every
+   request a NEW RouteParams, and Router.Match writes into the RouteParams it is
+   given (Path, PathTemplate, Vars created when nil, one assignment per variable
+   of the selected route).  For every history through the adapter: what the
+   handler of the k-th request sees is what a dispatch with a new RouteParams
+   gives on a router on which only the operations before it were performed --
+   it does not depend on the requests served before or on their variables --
+   and the property predicate holds for it *)
+Theorem C17_adapter : forall st0 mws pre segs order post, wf st0 ->
+  let st := apply_ops st0 (hops pre) in
+  let out := to_handler st mws order segs in
+  nth_error (run_adapter st0 mws (pre ++ HServe segs order :: post)) (hserves pre) = Some out /\
+  aobs out = serve st mws order segs /\
+  (Permutation order (routes_of st) ->
+   dispatch_class (sregs_of st) (st_default st) mws (filter_path (path_of segs))
+     (fst out) (rp_obs (snd out)) = 0%N).
+Proof. exact adapter_dispatch. Qed.
+Print Assumptions C17_adapter.
+
+(* ... and the NEW RouteParams is needed: Match keeps every binding of the
+   incoming Vars map whose name is not a variable of the selected route, and
+   leaves the RouteParams untouched when nothing matches *)
+Theorem C17_params_in_out :
+  (forall r path p0 k, ~ In k (var_names (r_parts r)) ->
+     vlookup (rp_map (match_into (Some r) path p0)) k = vlookup (rp_map p0) k) /\
+  (forall path p0, match_into None path p0 = p0) /\
+  (forall sel path, is_nil path = false -> rp_obs (match_into sel path rp_new) = match_result sel path).
+Proof. split; [exact recycled_params_keep|]. split; [reflexivity|exact match_into_new]. Qed.
+Print Assumptions C17_params_in_out.
+
+(* FINE-GRAINED LOCKING (sync.RWMutex explicit; taking the lock can be refused;
+   the scan of Match is one step per route, each reading the live map; any
+   thread may run between two steps).  For every start state, every set of
+   threads, every schedule:
+   - while a thread is inside Handle/HandleRemove/DefaultHandle (write lock
+     held) no thread is inside a scan;
+   - the registered state changes only in the step of a thread that holds the
+     write lock, at a moment when no scan is in progress *)
+Theorem C17_fine_exclusion : forall st jobs sched,
+  let c := frun (finit st jobs) sched in
+  (forall i t, nth_error (fc_threads c) i = Some t -> is_write t = true ->
+     forall u, In u (fc_threads c) -> is_scan u = false) /\
+  (forall tid, fc_st (fstep c tid) <> fc_st c ->
+     exists t o, nth_error (fc_threads c) tid = Some t /\ f_pc t = FWrite o /\ fc_writer c = true /\
+                 forall u, In u (fc_threads c) -> is_scan u = false).
+Proof.
+  intros st jobs sched c. split; [exact (fine_exclusion st jobs sched)|].
+  intros tid. apply fine_write_excl. apply frun_inv, finit_inv.
+Qed.
+Print Assumptions C17_fine_exclusion.
+
+(* - hence the scan is atomic: every completed dispatch selected what ONE scan
+     of ONE map gives -- the map of the state reached by a prefix of the
+     schedule -- i.e. a route registered in that map whose pattern matches (a
+     longest one when the iteration visited the whole map), or none when none
+     matches: the statement of C17_concurrent, now without assuming that the
+     critical section is a single step *)
+Theorem C17_fine_atomic : forall st jobs sched d, In d (fc_log (frun (finit st jobs) sched)) ->
+  (exists s1 s2, sched = s1 ++ s2 /\ d_routes d = st_routes (fc_st (frun (finit st jobs) s1))) /\
+  match d_sel d with
+  | Some r => In r (map snd (d_routes d)) /\ path_match r (d_path d) = true /\
+              (Permutation (visit (d_order d) (d_routes d)) (map snd (d_routes d)) ->
+               maximal_match (map snd (d_routes d)) (d_path d) r)
+  | None => Permutation (visit (d_order d) (d_routes d)) (map snd (d_routes d)) ->
+            forall r, In r (map snd (d_routes d)) -> path_match r (d_path d) = false
+  end.
+Proof. exact fine_dispatch. Qed.
+Print Assumptions C17_fine_atomic.
+
+Theorem C17_fine_invariant : forall st jobs sched, wf st -> wf (fc_st (frun (finit st jobs) sched)).
+Proof. intros st jobs sched H. apply frun_wf. exact H. Qed.
+Print Assumptions C17_fine_invariant.
+
+(* non-vacuity of the fine-grained theorems: "/dev/{id}" registered; thread 0
+   dispatches "/dev/42", thread 1 registers "/dev/{id:[0-9]+}".  After thread 0
+   took the read lock thread 1 is blocked (its steps change nothing), thread 0
+   finishes with route 1, then thread 1 gets the lock and registers; a recycled
+   RouteParams would keep the variable "id" of "/dev/42" for "/grp/abc/7" *)
+Example C17_fine_instance :
+  let b := fun l : list Z => l in
+  let t1 := b [47;100;101;118;47;123;105;100;125] in
+  let t2 := b [47;100;101;118;47;123;105;100;58;91;48;45;57;93;43;125] in
+  let tg := b [47;103;114;112;47;123;110;97;109;101;125;47;123;109;101;109;98;101;114;125] in
+  let q := [b [100;101;118]; b [52;50]] in
+  let st1 := apply_ops init_state [OHandle t1 (Some 1); OHandle tg (Some 3)] in
+  let c0 := finit st1 [[JServe q [0%nat; 1%nat]]; [JOp (OHandle t2 (Some 2))]] in
+  let c1 := frun c0 [0; 0; 0]%nat in
+  let c2 := frun c1 [1; 1; 0; 1; 0; 0; 1; 1]%nat in
+  fblocked c1 1 = true /\ frun c1 [1; 1; 1]%nat = c1 /\
+  map (fun d => option_map r_h (d_sel d)) (fc_log c2) = [Some 1] /\
+  map snd (fc_results c2) = [ResOk] /\ length (st_routes (fc_st c2)) = 3%nat /\
+  let p1 := snd (to_handler st1 [] (routes_of st1) q) in
+  let q2 := [b [103;114;112]; b [97;98;99]; b [55]] in
+  rp_obs p1 = Some (b [47;100;101;118;47;52;50], t1, [(b [105;100], b [52;50])]) /\
+  dispatch_class (sregs_of st1) (st_default st1) [] (filter_path (path_of q2))
+    (fst (to_handler st1 [] (routes_of st1) q2)) (rp_obs (snd (to_handler st1 [] (routes_of st1) q2))) = 0%N /\
+  dispatch_class (sregs_of st1) (st_default st1) [] (filter_path (path_of q2))
+    (fst (serve_into st1 [] (routes_of st1) q2 p1)) (rp_obs (snd (serve_into st1 [] (routes_of st1) q2 p1))) = 6%N.
+Proof. vm_compute. repeat split. Qed.
 
 (* non-vacuity of the history theorems: "/dev/42" is served by "/dev/{id}" (1),
    then "/dev/{id:[0-9]+}" (2) is registered and takes the same path over, it is
